@@ -7,10 +7,50 @@ TARGETS = {
 }
 PROP = {
     "subchecks": [
+        # (a) hostile bytes, token-level generator (rapidcheck).  Must stay the FIRST rapidcheck sub-check named `hostile`:
+        # the text regression inputs `# hostile: ...` are replayed through it.
         {"target": "c13_hostile_rc", "sub": "hostile",
-         "quick": {"cases": 1500, "max_size": 100, "workers": 4, "case_alarm": 60},
-         "thorough": {"cases": 40000, "max_size": 100, "workers": 4, "case_alarm": 60}},
+         "quick": {"cases": 10000, "max_size": 100, "workers": 4, "case_alarm": 60},
+         "thorough": {"cases": 250000, "max_size": 100, "workers": 4, "case_alarm": 60}},
+        # (b) line editor against the reference editor
+        {"target": "c13_line_editor_rc", "sub": "line_editor",
+         "quick": {"cases": 4000, "max_size": 100, "workers": 4, "case_alarm": 60},
+         "thorough": {"cases": 120000, "max_size": 100, "workers": 4, "case_alarm": 60}},
+        # (a) hostile bytes, libFuzzer (even workers start from corpus/C13/hostile, odd ones from an empty corpus).
+        # A hang is part of the property: a timeout artifact is a violation (a unit takes ~1 ms; the limit is 60 s).
+        {"target": "c13_hostile_fuzz", "sub": "hostile", "dict": _DICT, "timeout_is_violation": True,
+         "quick": {"runs": 25000, "max_len": 512, "workers": 8, "unit_timeout": 60},
+         "thorough": {"runs": 300000, "max_len": 1024, "workers": 8, "unit_timeout": 60}},
     ],
-    "assumptions": [],
+    "assumptions": [
+        "one session per Terminal, driven from the loop thread; the loop is drained (a few passes) before the service, the Terminal and the loop are destroyed, in that order",
+        "SIGPIPE is ignored or handled by the application (as tbox::main does): a client that disconnects while a reply is being written must not kill the process through the default SIGPIPE action",
+        "command nodes may call Session::send / isValid / endSession and TerminalNodes::createDirNode / mountNode / umountNode / deleteNode of OTHER nodes; a node never deletes itself while it runs",
+        "(b) every key arrives whole inside one segment; a bare CR counts as Enter only as the last byte of a segment; keys are printable ASCII without ; ' \" / # > $ % and Enter, Backspace, Delete, Left, Right, Home, End, Up, Down",
+        "(b) reference rules taken from the real editor where the statement is silent (NOTES.md): a line is stored iff it is non-empty and is not `history` or a history reference; a successful !n / !-n / !! stores the line it ran; !n counts from 0 = oldest stored line, !-n from 1 = newest; Up/Down replace the draft, Down past the newest entry leaves an empty line; lines the reference does not predict (white space only, exit/quit, malformed ! forms, `history` with arguments, !-0) are rubbed out instead of entered",
+        "(b) text layout is free: a prompt is whatever follows the last line feed of the greeting; `history` lines only have to END with the stored line; an error reply is any non-blank text",
+    ],
 }
-META = {"design_ref": "DESIGN.md section 4, C13", "technique": "", "level_text": "", "level_note": ""}
+META = {
+    "design_ref": "DESIGN.md section 4, C13",
+    "technique": "coverage-guided fuzzing (libFuzzer, dictionary of telnet / key / shell tokens, seed corpus of real sessions) and token-level random generation (rapidcheck) of "
+                 "client byte streams with generated segmentation against a real Terminal with generated node trees behind each of its three front ends (in-process Connection, "
+                 "Telnetd and TcpRpc on a unix-domain socket, real event loop on the harness thread) under ASan/UBSan with poisoned session-pool blocks (hook H3); plus model-based "
+                 "testing (rapidcheck) of generated keystroke sessions against a reference line editor with bounded history",
+    "level_text": "(a) Byte streams of up to 64 KiB built from telnet negotiation and sub-negotiation sequences (complete, truncated, nested, with 0-6 option bytes), escape and "
+                  "control sequences, shell syntax (; quotes ! paths), built-in commands, history references with integers at the int32/int64 edges, node names, long runs and raw noise, "
+                  "cut into up to 8 (fuzzer) or dozens (generator) of segments - including segment sizes that make a telnet fragment end exactly at the end of the receive buffer's "
+                  "allocation - are sent to one session of a Terminal whose tree has directories, cycles, deleted-but-mounted nodes, a null function, value nodes of helper.h, and "
+                  "commands that end the session, reply with 3 KB, and create / mount / umount / delete nodes at run time; the session is then closed in one of four ways (peer close, "
+                  "service stop, half-close, close with the last segment still unread). Nothing may crash, trip ASan/UBSan, leak, hang or let an exception out of runLoop / onRecvString; "
+                  "calls with the token of a deleted session must return false and do nothing. (b) Sessions of up to 36 lines typed key by key (commands for probe nodes with arguments, "
+                  "blank lines, history, !n / !-n / !! with n at 0, size-1, size, -size, -size-1, +-2^31, +-2^32, 10^12, 2^64, recalls with Up/Down that are then edited, edits in the "
+                  "middle of the line), every key in one of its encodings, segment boundaries anywhere between keys, echo on and off, through all three front ends: after every segment "
+                  "the probe nodes were invoked exactly as a reference editor (string + cursor + history deque of 20 + history index) predicts - same probe, exactly the words of the "
+                  "reference's line, nothing missing, nothing extra - there is one new prompt per Enter, `history` lists exactly the reference's stored lines in order, and a history "
+                  "reference either runs exactly the addressed stored line or prints an error and runs nothing. Exploration only: no counter-example among N generated cases.",
+    "level_note": "Trusted: the reference editor (about 60 lines, line_editor.cpp), the harness's own word splitter, ASan/UBSan and the pool-poisoning hook, libFuzzer's timeout as hang "
+                  "detector. Six genuine defects were found and are fixed by harness/C13/proposed-fixes/01..06 (regression inputs in corpus/C13/regress; the check reports them again if "
+                  "they return). Not covered: several concurrent sessions on one Terminal, the stdio front end, destruction of a service or Terminal while deferred tasks are pending, keys "
+                  "split across segments, ;-joined and quoted command lines beyond crash-freedom, what built-in commands print, SIGPIPE with the default disposition.",
+}
